@@ -38,6 +38,8 @@ def op_code(op, var="reg"):
 
 
 def reload_code(how, var="reg"):
+    if how == "deepcopy":
+        return f"import copy\n{var} = copy.deepcopy({var})\n"
     if how == "json":
         return f"{var} = UnitRegistry.from_json({var}.to_json())\n"
     return (f"_k = [k for k, v in {var}.lut.items() if v[2] == 0.0 and k.isascii() and k.isidentifier()]\n"
@@ -70,7 +72,7 @@ def wire(op):
         return "R:" + op[1]
     if k == "M":
         return f"M:{core.f2b(op[2])}:{op[1]}"
-    return "J"
+    return "C" if op[1] == "deepcopy" else "J"
 
 
 class World:
@@ -87,6 +89,10 @@ class World:
         return self.UR() if start == "full" else self.UR(add_default_symbols=False)
 
     def reload(self, reg, how):
+        if how == "deepcopy":
+            import copy
+
+            return copy.deepcopy(reg)
         if how == "json":
             return self.UR.from_json(reg.to_json())
         k = [k for k, v in reg.lut.items() if v[2] == 0.0 and k.isascii() and k.isidentifier()]
@@ -157,7 +163,7 @@ class World:
         elif k == "J":
             reg = self.reload(reg, op[1])
             # the loader puts every missing default symbol back (_correct_old_unit_registry)
-            for kk, v in self.LUT.items():
+            for kk, v in (self.LUT.items() if op[1] != "deepcopy" else ()):
                 if kk not in user:
                     user[kk] = (v[0], v[1], v[2], v[4])
             out = ["done"]
@@ -188,7 +194,7 @@ class World:
         """[(clause, route, name, item, got, want)] for every probe that fails after the history `ops`;
         routes: the registry itself, its JSON reload, its pickle reload"""
         bad = []
-        for route in ("direct", "json", "pickle"):
+        for route in ("direct", "json", "pickle", "deepcopy"):
             reg, user = self.run(start, ops)
             fresh = self.fresh(start, ops)
             if route != "direct":
@@ -240,7 +246,7 @@ def gen_history(rng, W, pools, length):
         elif r < 0.82:
             ops.append(("R", rng.choice([focus, base, users[0], rng.choice(plain)])))
         elif r < 0.90:
-            ops.append(("J", rng.choice(["json", "pickle"])))
+            ops.append(("J", rng.choice(["json", "pickle", "deepcopy"])))
         else:
             ops.append(("U", rng.choice(["k" + users[0], "M" + users[1], users[0], rng.choice(prefixed), rng.choice(plain)])))
     probes = [(focus, False), (focus, True), (base, False), ("k" + users[0], False)]
@@ -269,7 +275,7 @@ def shrink(W, start, ops, probe, clause, route):
 def kind_of_history(ops):
     """seed-independent shape: which kinds of operation the (shrunk) history consists of"""
     names = {"U": "string", "K": "getitem", "A": "add", "R": "remove", "M": "modify", "J": "reload"}
-    return "+".join(dict.fromkeys(names[o[0]] for o in ops))
+    return "+".join(dict.fromkeys("deepcopy" if o == ("J", "deepcopy") else names[o[0]] for o in ops))
 
 
 def run(chk, model, tier, rng, names, reader):
